@@ -207,6 +207,29 @@ def planted_file(inp):
     return (vec, alt + "\n")
 
 
+def decoded_differently(inp):
+    """a child whose locale / UTF-8 mode differs decodes non-ASCII bytes of its command line differently: it is then given
+    ANOTHER command line than the one written down here, and only status and tracebacks can be judged"""
+    env = inp.get("env") or {}
+    return bool(inp.get("subprocess")) and any(k in env for k in ("LC_ALL", "LC_CTYPE", "LANG", "PYTHONUTF8")) and \
+        any(ord(c) > 127 for a in inp["argv"] for c in a)
+
+
+def same_message(rep, out):
+    """
+    the library's message on stdout.  A message that quotes characters no output stream can encode (lone surrogates from
+    undecodable command-line bytes) cannot be printed verbatim: then the ASCII parts must appear in order, whatever stands
+    for the rest (escapes, replacement characters ...).
+    """
+    import re
+    if out.strip() == rep.strip():
+        return True
+    if not any(0xD800 <= ord(c) <= 0xDFFF for c in rep):
+        return False
+    parts = [re.escape(p) for p in re.split("[^\x00-\x7f]+", rep.strip())]
+    return re.match("^" + ".*?".join(parts) + "$", out.strip(), re.S) is not None
+
+
 def check_cli(inp):
     argv, stdin = inp["argv"], inp.get("stdin")
     raw = argv
@@ -217,6 +240,8 @@ def check_cli(inp):
     fails = []
     if r["exc"] or r["status"] != 0 or "Traceback (most recent call last)" in r["err"] or "Traceback (most recent call last)" in r["out"]:
         return [failure("exit status 0, no traceback", {"status": r["status"], "exc": r["exc"], "stderr": r["err"][-300:]})]
+    if decoded_differently(inp):
+        return []
     argv = expand(argv)         # the model reads the command line one flag per element
     versions = selected_versions(argv)
     want_json = ("-j" in argv) or ("--json" in argv)
@@ -233,7 +258,7 @@ def check_cli(inp):
             if kind == "report":
                 f = compare_report(rep, out, want_json)
             elif kind == "error":
-                f = [] if out.strip() == rep.strip() else [failure(rep, out[:300], note="library error message expected on stdout")]
+                f = [] if same_message(rep, out) else [failure(rep, out[:300], note="library error message expected on stdout")]
             else:
                 f = []
             alternatives.append(f)
@@ -309,6 +334,11 @@ def case_strategy():
                 if vec == "--":
                     vec = "--x"      # the bare '--' is consumed by argparse itself (nothing reaches the program): a precondition
                                      # of any argparse command line, like the '--vector=VALUE' form for values starting with '-'
+            elif draw(st.integers(0, 3)) == 0:
+                # bytes of the command line that are not valid UTF-8 reach the program as lone surrogates U+DC80..U+DCFF (PEP 383)
+                base = draw(st.one_of(gen.valid(ver), st.text(alphabet="AVCN:/ ", max_size=8)))
+                i = draw(st.integers(0, len(base)))
+                vec = base[:i] + draw(st.sampled_from(("\udcff", "\udc80", "\udce9", "\udcc3(", "\udcfe\udcff", "\udce2\udc82"))) + base[i:]
             else:
                 vec = draw(st.text(alphabet=st.characters(blacklist_categories=("Cs",), blacklist_characters="\x00"), max_size=30))
             if vec.startswith("-") or draw(st.booleans()):
@@ -350,7 +380,7 @@ def hyp_part(n_examples, shard, n_sub):
         # which cases are re-run as real processes, and how, is a function of the case (a counter would make a failure
         # irreproducible for the library's own replay)
         k = runner.h64(json.dumps([inp["argv"], inp["stdin"]], sort_keys=True))
-        if ok and k % every == 0 and "\n" not in "".join(inp["argv"]):
+        if ok and k % every == 0 and "\n" not in "".join(inp["argv"]) and cli.can_be_argv(inp["argv"]):
             k //= every
             part.classes["subprocess"] += 1
             a = cli.run_inprocess(inp["argv"], inp["stdin"])
@@ -362,7 +392,7 @@ def hyp_part(n_examples, shard, n_sub):
             b = cli.run_subprocess(inp["argv"], inp["stdin"], console_script=cs, env_extra=sub["env"], plant=planted_file(sub))
             if b["status"] != 0 or "Traceback" in b["err"]:
                 raise runner.Falsified("cli", sub, [failure("exit status 0, no traceback", {"status": b["status"], "stderr": b["err"][-300:]})])
-            if a["out"] != b["out"]:
+            if a["out"] != b["out"] and not decoded_differently(sub):
                 raise runner.Falsified("cli", sub, [failure(a["out"][-300:], b["out"][-300:], note="subprocess stdout differs from in-process stdout")])
     runner.run_hyp(part, t, "C17.hyp")
     return part
